@@ -78,8 +78,39 @@ pub fn exec(func: &str, a: &mut Args) -> String {
             let vox = VoxelSet::voxelize(&pts, &idx, res, fill(fm), false);
             fvox(&vox)
         }
+        // voxelize2 <res> <fill> <npts> pts <nedges> edges → origin scale n (i j s)*
+        "voxelize2" => {
+            use crate::p2::transformation::voxelization::{FillMode as FM2, VoxelSet as VS2};
+            let res = a.u() as u32; let fm = a.u();
+            let np = a.u(); let pts: Vec<_> = (0..np).map(|_| d2::p(a)).collect();
+            let ne = a.u(); let idx: Vec<[u32; 2]> = (0..ne).map(|_| [a.u() as u32, a.u() as u32]).collect();
+            let fmode = match fm { 0 => FM2::SurfaceOnly, 1 => FM2::FloodFill { detect_cavities: false, detect_self_intersections: false }, _ => FM2::FloodFill { detect_cavities: true, detect_self_intersections: false } };
+            let vox = VS2::voxelize(&pts, &idx, res, fmode, false);
+            let mut s = format!("{} {} {}", d2::fp(&vox.origin), ff(vox.scale), vox.voxels().len());
+            for x in vox.voxels() { s.push_str(&format!(" {} {} {}", x.coords.x, x.coords.y, b(x.is_on_surface))); }
+            s
+        }
         _ => "nofn".into(),
     }
+}
+
+/// closed simple polygons: rectangle, L, U (pocket opening towards a random side), star, comb
+fn gen_poly2(r: &mut Rng, lat: bool) -> Vec<d2::Point<f64>> {
+    let raw: Vec<(f64, f64)> = match r.below(5) {
+        0 => vec![(0.0, 0.0), (4.0, 0.0), (4.0, 2.0), (0.0, 2.0)],
+        1 => vec![(0.0, 0.0), (4.0, 0.0), (4.0, 1.0), (1.0, 1.0), (1.0, 4.0), (0.0, 4.0)],
+        2 => { let h = *r.pick(&[3.0, 4.0, 6.0]); vec![(0.0, 0.0), (3.0, 0.0), (3.0, h), (2.0, h), (2.0, 1.0), (1.0, 1.0), (1.0, h), (0.0, h)] }
+        3 => { let n = 5 + r.below(4) as usize; (0..2 * n).map(|k| { let a = std::f64::consts::PI * k as f64 / n as f64; let rad = if k % 2 == 0 { 3.0 } else { 1.2 }; (rad * a.cos(), rad * a.sin()) }).collect() }
+        _ => { let teeth = 2 + r.below(3) as usize; let mut v = vec![(0.0, 0.0)]; let w = 1.0;
+               v.push(((2 * teeth + 1) as f64 * w, 0.0)); let top = 3.0;
+               for t in (0..=teeth).rev() { let x1 = (2 * t + 1) as f64 * w; let x0 = (2 * t) as f64 * w; v.push((x1, top)); v.push((x0, top)); if t > 0 { v.push((x0, 1.0)); v.push((x0 - w, 1.0)); } }
+               v }
+    };
+    // orientation of the pocket: rotate by a multiple of 90 degrees (exact) or a generic angle
+    let (c, s) = if lat { *r.pick(&[(1.0, 0.0), (0.0, 1.0), (-1.0, 0.0), (0.0, -1.0)]) } else { let a = r.uniform(0.0, 6.28); (a.cos(), a.sin()) };
+    let sc = if lat { 1.0 } else { r.logu(0.2, 50.0) };
+    let (tx, ty) = (r.coord(lat, 5.0), r.coord(lat, 5.0));
+    raw.iter().map(|(x, y)| d2::Point::new((c * x - s * y) * sc + tx, (s * x + c * y) * sc + ty)).collect()
 }
 
 fn transform(m: &mut (Vec<P3>, Vec<[u32; 3]>), iso: &d3::Isometry<f64>, sc: &d3::Vector<f64>) {
@@ -135,6 +166,13 @@ pub fn gen(r: &mut Rng, thorough: bool) -> Vec<(String, String)> {
         if it % 3 == 0 { v.push(("hulls3".into(), format!("{} {} {} {} {} {} {}", maxh, res.min(12), fm, hx(conc), pds, hds, ms))); }
         // voxelize3: the last flag tells the oracle whether the mesh is convex (fill check applies)
         v.push(("voxelize3".into(), format!("{} {} {} {}", res, fm, ms, if convex { "1" } else { "0" })));
+        for _ in 0..2 {
+            let poly = gen_poly2(r, lat);
+            let n = poly.len();
+            let res2 = *r.pick(&[8u32, 16, 21, 32, 50]);
+            v.push(("voxelize2".into(), format!("{} {} {} {} {} {}", res2, r.below(3), n, poly.iter().map(d2::hp).collect::<Vec<_>>().join(" "), n,
+                (0..n).map(|i| format!("{} {}", i, (i + 1) % n)).collect::<Vec<_>>().join(" "))));
+        }
     }
     v
 }
